@@ -430,3 +430,4 @@ not_reproduced()
 # level text addendum (cases added after the seeded-change rounds)
 LEVEL_TEXT = LEVEL_TEXT + ' Also: the default nanmean with symbolic NaN flags, a header dictionary, chunk sizes that are not a multiple of the bin, savgol on nearly regular abscissae to 1e-9.'
 LEVEL_TEXT = LEVEL_TEXT + ' Round 6: a fractional chunk size in the venn count.'
+LEVEL_TEXT = LEVEL_TEXT + ' Round 7: a float32 constant through the smoothers (single-precision running sums lose digits), unlabelled (NaN) traces in stack.'
